@@ -5,6 +5,7 @@ CONSTANTS Readers = {"r1", "r2"}
           Sweeps = 1
           Closers = {"closer"}
           LoadMayFail = TRUE
+          HoldAnswers = FALSE
 INVARIANTS UseOnlyLoadedOpen NeverUseClosed ClosedOnlyUnused CleanResults MutexOK
 PROPERTY Terminates
 CHECK_DEADLOCK TRUE
